@@ -9,6 +9,7 @@ library `W.S`), so the very same contract code is executed
 """
 import math
 import random
+import zlib
 import time
 import traceback
 from dataclasses import dataclass, field
@@ -350,10 +351,10 @@ def verify_config(contract, cfg, tier="quick", seed=0, timeout_s=10.0, spec_fact
         return [ObResult(name=f"{cname}{cfg_tag}/vacuous", status=R.FAULT, detail="no feasible path", **common)]
 
     # ---- conformance: symbolic result vs native execution at random points of the requires region
-    rng = random.Random(seed * 1000003 + hash(cname + cfg_tag) % 100000)
+    rng = random.Random(seed * 1000003 + zlib.crc32((cname + cfg_tag).encode()) % 100000)      # (str hash is salted per process: not reproducible)
     conf_ok, conf_detail = 0, ""
     Wn = World(False, None, spec_factory)
-    n_conf = contract.n_conformance
+    n_conf = contract.n_conformance * (5 if tier == "thorough" else 1)      # thorough: five times as many engine-conformance points
     tries = 0
     while conf_ok < n_conf and tries < n_conf * 30:
         tries += 1
